@@ -328,6 +328,39 @@ def run(rep: Report, tier: str) -> None:  # noqa: C901
                                     f"not propagated by its rule but kept as alias-qualified columns (or merged although one carrier has it as a plain attribute)"))
     rep.instance("R28.11", "merge-cases", nontrivial=True, sample={"cases": n11})
     rep.floor("R28.11 merge cases", n11, 70)
+    # ---- R28.12: an enumerated rule applied to ONE value (row-preserving operators): unary clauses, else the rule's default ----
+    rep.rule("R28.12", "_enumerated_single_case evaluated for rules with and without an else: a value named by a unary clause maps to its result, any other value (and NULL) maps to the "
+                       "rule's default - NULL when the rule has no else - exactly as the pair form does for an unmatched pair")
+    from sa import sqlconc as _sc12, sqlexpr as _se12
+    from sa.e6 import ExternalObj as _EO12, Interp as _I12, Raised as _R12, Unmodelled as _U12
+    fs12 = P.func(f"{SQLM}._enumerated_single_case")
+    n12 = 0
+    for has_default in (False, True):
+        cl12 = [{"values": ["A"], "result": "A1"}, {"values": ["A", "C"], "result": "AC"}, {"values": [None], "result": "N1"}] if has_default else \
+            [{"values": ["A"], "result": "A1"}, {"values": ["A", "C"], "result": "AC"}]
+        rule12 = _EO12({"name": "r", "signature_type": "variable", "target": "V", "enumerated_clauses": cl12, "aggregate_function": None, "default_value": "D" if has_default else None})
+        try:
+            case12 = str(_I12(P).call(fs12, {"rule": rule12, "ref": "v"}))
+            parsed12 = _se12.parse(case12)
+        except (_U12, _R12) as e:
+            raise AnalysisError(f"R28.12: _enumerated_single_case outside the evaluator's language: {e}")
+        except _se12.ParseError as e:
+            raise AnalysisError(f"R28.12: the generated CASE is outside the SQL evaluator's language: {e}")
+        for val in ("A", "C", "Q", None):
+            unary = [c_ for c_ in cl12 if len(c_["values"]) == 1 and c_["values"][0] == val]
+            want12 = unary[0]["result"] if unary else ("D" if has_default else None)
+            try:
+                got12 = _sc12.ev(parsed12, {"v": val}, {})
+            except _sc12.SqlError as e:
+                got12 = f"<error {e}>"
+            n12 += 1
+            rep.instance("R28.12", f"single/{'else' if has_default else 'no-else'}/{val}", nontrivial=True, sample={"value": val, "result": got12} if n12 <= 3 else None)
+            if got12 != want12:
+                rep.add(transp.fnd("R28.12", f"single/{'else' if has_default else 'no-else'}/{val}", fs12, fs12.node.lineno,
+                                   f"enumerated rule `when \"A\" then \"A1\"; when \"A\" and \"C\" then \"AC\"{'; else \"D\"' if has_default else ''}` applied to the single value {val!r} "
+                                   f"(abs(DS), DS + 1): result {got12!r}, the rule gives {want12!r} (an unmatched value takes the default; without an else that is NULL, as for an unmatched pair) "
+                                   f"[generated: {case12[:100]}]"))
+    rep.floor("R28.12 single-value cells", n12, 8)
     rep.assumptions = ["LEAST/GREATEST/+// on non-null numbers behave as min/max/sum/quotient (exact rationals used)", "grammar tokens MIN MAX SUM AVG are the aggregate functions of vp clauses"]
 
 
